@@ -52,6 +52,34 @@ def case_task(task):
                 part.violation("%s in %s while computing the reported CCFs" % (et, where), dict(case, msg=msg))
             continue
         part.count("evaluations")
+        # the values as the results table carries them (what the commands write): the same numbers, still on the grid
+        try:
+            from phyclone.process_trace.process_trace import get_clone_table
+            samples_ = ["S%d" % d for d in range(D)]
+            table = get_clone_table(data, samples_, tree)
+            bad_cell = None
+            for _, r in table.iterrows():
+                cl, si = r["clone_id"], samples_.index(str(r["sample_id"]))
+                if str(cl) == "-1":
+                    continue
+                want_c, want_p = float(np.asarray(ccfs[cl])[si]), float(np.asarray(prevs[cl])[si])
+                if float(r["ccf"]) != want_c or abs(float(r["clonal_prev"]) - want_p) > 1e-12:
+                    bad_cell = {"clone": str(cl), "sample": si, "table": [float(r["ccf"]), float(r["clonal_prev"])],
+                                "computed": [want_c, want_p]}
+                    break
+            part.count("result_tables_compared")
+            if bad_cell is not None:
+                part.violation("CCF / clonal prevalence in the results table are not the grid values computed for the clone",
+                               dict(case, **bad_cell))
+                continue
+        except Exception as e:
+            et, where, msg = describe_exception(e)
+            if where == "outside-repo":
+                import traceback
+                part.inconc("harness error: " + traceback.format_exc()[-700:])
+            else:
+                part.violation("%s in %s while building the results table" % (et, where), dict(case, msg=msg))
+            continue
         if G > 256:
             part.count("fine_grid_cases")
         if c.get("many_clones"):
@@ -148,6 +176,8 @@ def run(ctx):
         f = gen.random_forest(rng, n, max_children=8, shape=[None, "star", "bushy", "chain"][i % 4], n_tops=[None, 1, 4][i % 3])
         cases.append({"id": cid, "mode": "recursive", "forest": f.describe(), "G": [11, 21, 11, 101][i % 4] if n <= 7 else 11,
                       "D": 1 + i % 3, "kind": ["moderate", "smooth", "flat", "peaked", "binom", "near_ties"][i % 6]})
+        if i % 9 == 4 and n <= 7:
+            cases[-1]["G"] = [13, 31, 50, 128, 23][(i // 9) % 5]  # grid steps that are not short decimals
         cid += 1
     # fine grids (indices beyond 8 / 16-bit-free ranges of small integer types, the user may choose any grid size >= 11)
     big = []
